@@ -146,6 +146,9 @@ def eval_group(L, M, rnotes, include, mode, join, oh, ot, pass_policies=True, pa
             if named not in exp:
                 raise Violation(f"group_notes on {show(M.notes)} with {opts()} raised about {named}, which is not one of the orphans under a RAISE policy {exp}")
         return 1
+    except Exception as e:  # not documented: let it escape (the runner classifies it), but name the input
+        e.add_note(f"input: group_notes on {show(M.notes)} with {opts()}")
+        raise
     if exp_kind != "ok":
         raise Violation(f"group_notes on {show(M.notes)} with {opts()} did not raise; expected OrphanedNoteException about one of {exp}; got {len(raw)} groups")
     got = conv(L, raw)
